@@ -38,7 +38,7 @@ opcodes! {
     UniSlMuNew = "uni_sl_mu_new", "C15";
     UniHsMuNew = "uni_hs_mu_new", "C15";
     UniFatMuNew = "uni_fat_mu_new", "C15";
-    HugeNew = "huge_new", "C05";
+    HugeNew = "huge_new", "C05 C15";
     // ---- clone-style (a=src, b=dst)
     Clone = "clone", "";
     BorrowCloneArc = "borrow_clone_arc", "";
